@@ -58,7 +58,9 @@ def age(v):
 
 # --------------------------------------------------------------------------- value pools: (valid, invalid, escaping)
 TEXTS = ["x", "A summary", "héllo wörld", "日本語", "", " padded ", "a,b", "=?utf-8?q?caf=C3=A9?=", "tab\there",
-         "ſtrange K", "a\x00b", "semi;colon: colon"]
+         "ſtrange K", "a\x00b", "semi;colon: colon",
+         # valid text that *looks* like the trace of a failed decode / an escape (validity is decided on the bytes)
+         "replacement \ufffd char", "\ufffd", "bom\ufeffinside", "nbsp\u00a0here", "\U0001f600 emoji", "back\\slash", "?", "caf\u00e9 \ufffd"]
 MULTILINE = ["line one\nline two", "para\n\npara", "cr\rhere", "trailing\n", "\n"]
 URLS = ["https://example.com", "https://example.com/a,b", "", "not a url"]
 
